@@ -59,6 +59,56 @@ theorem sortKidsBy_stable_class {lt} (h : StrictWeak lt) (ks : List PT) (v : Int
   simp only [List.mem_filter, Bool.and_eq_true, Bool.not_eq_true'] at hx hy
   exact h.negTrans _ _ _ hy.2.1 hx.2.2
 
+/-- membership in the equivalence class of `v` -/
+def eqv (lt : Int → Int → Bool) (v : Int) (x : PT) : Bool := !lt x.val v && !lt v x.val
+
+/-- Permutation + ordered + stable determine the result: two ordered arrangements of the same children that keep every
+equivalence class in the same order are equal.  (So the three theorems above specify `sort` completely, whatever algorithm
+`std::list::sort` uses.) -/
+theorem sorted_stable_unique {lt} (h : StrictWeak lt) : ∀ (l1 l2 : List PT), l1.Perm l2 →
+    l1.Pairwise (fun x y => lt y.val x.val = false) → l2.Pairwise (fun x y => lt y.val x.val = false) →
+    (∀ v, l1.filter (eqv lt v) = l2.filter (eqv lt v)) → l1 = l2
+  | [], l2, hp, _, _, _ => by simpa using hp.symm.eq_nil
+  | x :: l1, [], hp, _, _, _ => by simpa using hp.eq_nil
+  | x :: l1, y :: l2, hp, h1, h2, hf => by
+    have hirr : ∀ a, lt a a = false := fun a => by
+      cases haa : lt a a with
+      | false => rfl
+      | true => exact (h.asymm a a haa).symm.trans haa |>.symm ▸ rfl
+    -- x and y are equivalent: each is minimal in its list and occurs in the other
+    have hyx : lt y.val x.val = false := by
+      have : y ∈ x :: l1 := hp.symm.mem_iff.1 (List.mem_cons_self)
+      rcases List.mem_cons.1 this with rfl | hm
+      · exact hirr _
+      · exact (List.pairwise_cons.1 h1).1 y hm
+    have hxy : lt x.val y.val = false := by
+      have : x ∈ y :: l2 := hp.mem_iff.1 (List.mem_cons_self)
+      rcases List.mem_cons.1 this with rfl | hm
+      · exact hirr _
+      · exact (List.pairwise_cons.1 h2).1 x hm
+    -- so both head the class of x in their list, and the class lists are equal
+    have hx : eqv lt x.val x = true := by simp [eqv, hirr]
+    have hy : eqv lt x.val y = true := by simp [eqv, hyx, hxy]
+    have e := hf x.val
+    simp only [List.filter_cons, hx, hy, if_true, List.cons.injEq] at e
+    obtain ⟨rfl, -⟩ := e
+    have hp' : l1.Perm l2 := List.Perm.cons_inv hp
+    have ht : ∀ v, l1.filter (eqv lt v) = l2.filter (eqv lt v) := by
+      intro v
+      have e := hf v
+      simp only [List.filter_cons] at e
+      split at e
+      · exact (List.cons.inj e).2
+      · exact e
+    rw [sorted_stable_unique h l1 l2 hp' (List.pairwise_cons.1 h1).2 (List.pairwise_cons.1 h2).2 ht]
+
+/-- the result of `sort(Predicate)` is the only ordered, stable arrangement of the children -/
+theorem sortKidsBy_unique {lt} (h : StrictWeak lt) (ks l : List PT) (hp : l.Perm ks)
+    (hs : l.Pairwise (fun x y => lt y.val x.val = false)) (hst : ∀ v, l.filter (eqv lt v) = ks.filter (eqv lt v)) :
+    l = sortKidsBy lt ks :=
+  sorted_stable_unique h l (sortKidsBy lt ks) (hp.trans (sortKidsBy_perm lt ks).symm) hs (sortKidsBy_sorted h ks)
+    (fun v => (hst v).trans (sortKidsBy_stable_class h ks v).symm)
+
 /-- a sorted list is left alone -/
 theorem sortKidsBy_of_sorted {lt} (ks : List PT) (hs : ks.Pairwise (fun x y => lt y.val x.val = false)) :
     sortKidsBy lt ks = ks :=
